@@ -36,7 +36,7 @@ FN_BY_KIND = {
     "list": [["append_copy", 0], ["rebuild", 0], ["rebuild", 0], ["empty", 0], ["identity", 0], ["wrong", 0]],
     "set": [["rebuild", 0], ["rebuild", 0], ["empty", 0], ["identity", 0], ["wrong", 0]],
     "dict": [["rebuild", 0], ["rebuild", 0], ["empty", 0], ["identity", 0], ["wrong", 0]],
-    "spec": [["identity", 0], ["with_first", 0], ["wrong", 0], ["existing", 0], ["existing", 1]],
+    "spec": [["identity", 0], ["with_first", 0], ["wrong", 0], ["existing", 0], ["existing", 1], ["keyless", 0]],
     "other": [["identity", 0], ["wrong", 0], ["to_missing", 0]],
 }
 
@@ -93,6 +93,9 @@ def make_fn(world, name, param, cur=None):
         world.tick("fn", name)
         if name == "existing":
             return _existing_like(cur, v, param)
+        if name == "keyless":
+            # a keyed element that loses its key (no longer addressable: a keyed container must refuse it)
+            return v.reset_k() if hasattr(v, "reset_k") else v
         if name == "boom":
             raise ValueError("transform failed")
         if name == "inc":
